@@ -323,7 +323,8 @@ def random_and_validate(rep, wd, n, size, mode, st, jobs=4, shards=6):
     rejects = sorted(g for g, j in verdicts.items() if "reject" in j)
     # Does a rejection disappear when the notable input variants of the rendering are avoided?
     feat = {}
-    redo = [g for g in rejects if fulls[g].get("feats")]
+    # (not asked when the difference is already nothing but the EXIT trap action that was not run)
+    redo = [g for g in rejects if fulls[g].get("feats") and _why(fulls[g], verdicts[g]) != "EXIT trap action not run"]
     if redo:
         recs2 = os.path.join(wd, f"random-{mode}.redo.ndjson")
         full2 = os.path.join(wd, f"random-{mode}.redo.full.ndjson")
